@@ -199,6 +199,7 @@ package syncer
 //@   requires retry_budget: s.c.StorageRetryCount >= 1 || s.c.StorageRetryForever
 //@   modifies *
 //@   at_call cleaner.(*Worker).SetCommitted#0 assert only_after_store: ghost_nstore == old(ghost_nstore) + 1
+//@   at_call snapshot.(NameInfo).BuildName#0 assert name_carries_txn_time: s.hooks.UpdateSnapshotInfo == nil ==> arg0.Timestamp.wall == ghost_loc_nowWall && arg0.Timestamp.ext == ghost_loc_nowExt
 //@   loop 0 invariant not_stored: ghost_nstore == old(ghost_nstore)
 //@   loop 0 invariant inv: ghostInv()
 //@   loop 0 invariant not_in_txn: ghost_inTxn == 0
@@ -353,6 +354,11 @@ package syncer
 // are never dumped raw; the snapshot time is taken inside the transaction.
 //@ func (s *Syncer) SendOnce$1
 //@   noswallow
+//@   after_call time.Now#0 ghost loc_nowWall := ret0.wall
+//@   after_call time.Now#0 ghost loc_nowExt := ret0.ext
+//@   at_call header.TimestampFromTime#0 assert snapshot_time_read_inside_txn: arg0.wall == ghost_loc_nowWall && arg0.ext == ghost_loc_nowExt
+//@   after_call header.TimestampFromTime#0 ghost loc_tsNano := uint64(ret0)
+//@   ensures meta_carries_that_time: r0 == nil ==> msg.Meta.TimestampNano == ghost_loc_tsNano
 //@   after_call lmdbenv.ReadDBINames#0 ghost loc_needDump := 0
 //@   after_call strings.HasPrefix#0 ghost loc_needDump := ite(ret0, 0, 1)
 //@   after_call syncer.(*Syncer).readDBI#0 ghost loc_needDump := 0
